@@ -1244,3 +1244,322 @@ def parse_pvalue_taps(out):
             cur["p"] = float(p[2])
             cur = None
     return calls
+
+
+# ----------------------------------------------------------------------------- C18: exact rationals for the models
+from fractions import Fraction
+
+
+def qstr(x):
+    """exact value of a double (or int / Fraction) as "p/q" for the extracted drivers"""
+    f = Fraction(x)
+    return "%d/%d" % (f.numerator, f.denominator)
+
+
+def qparse(s):
+    a, b = s.split("/") if "/" in s else (s, "1")
+    return Fraction(int(a), int(b))
+
+
+F_EXTRAPOLATION = 0.01          # VNACAL_F_EXTRAPOLATION (src/vnacal_internal.h)
+
+
+# ----------------------------------------------------------------------------- C18: histories of vnacal_new_set_m_error
+MERR_VALID = ["off", "one", "one_tr", "cal", "cal_tr", "own", "own_tr"]
+MERR_INVALID = ["nonf", "nf_nonpos", "tr_neg", "not_ascending", "out_of_range", "bad_count"]
+
+
+def gen_merror_call(rng, freqs, kind):
+    """One call of vnacal_new_set_m_error on a calibration with frequencies `freqs`:
+    -> {"kind", "cmd" (harness command), "n" (frequencies argument), "fv", "nf", "tr" (lists or None = NULL),
+        "tab": [(fv, ys, values at the calibration frequencies)] for the spline calls, "spline": bool}.
+    Own-grid data are LINEAR in frequency (sigma_nf rising, sigma_tr falling), so that any interpolation
+    through the given points has the stated values at every calibration frequency."""
+    nfq = len(freqs)
+    lo, hi = freqs[0], freqs[-1]
+    snf = rng.choice([1e-6, 1e-4, 1e-2]) * rng.uniform(0.5, 2.0)
+    strk = rng.choice([0.0, 1e-5, 1e-3, 1e-1]) * rng.uniform(0.5, 2.0)
+    c = {"kind": kind, "tab": [], "spline": False, "fv": None, "nf": None, "tr": None, "n": 1}
+
+    def own_grid():
+        lay = rng.choice(["two", "two_off", "own", "own_off"])
+        if lay == "two":
+            gf = [lo, hi] if nfq > 1 else [lo * 0.5, lo * 1.5]
+        elif lay == "two_off":
+            gf = [lo * 0.9, hi * 1.1]
+        elif lay == "own":
+            gf = sorted(set([lo * 0.75] + list(freqs) + [0.5 * (freqs[i] + freqs[i + 1]) for i in range(nfq - 1)] + [hi * 1.25]))
+        else:
+            k = rng.choice([3, 4, 6])
+            gf = [lo * 0.8 + (hi * 1.2 - lo * 0.8) * (i / float(k - 1)) ** 1.3 for i in range(k)]
+        return gf
+
+    def linear(gf, base, slope):
+        span = gf[-1] - gf[0]
+        return lambda f: base * (1.0 + slope * (f - gf[0]) / span)
+
+    def finish():
+        n = c["n"]
+        fvt = "-" if c["fv"] is None else " ".join(fnum(x) for x in c["fv"])
+        if c["nf"] is None:
+            c["cmd"] = "merror_nonf %d %s" % (n, " ".join(fnum(x) for x in c["tr"]))
+        else:
+            c["cmd"] = "merror %d %s %s %s" % (n, fvt, " ".join(fnum(x) for x in c["nf"]),
+                                               "-" if c["tr"] is None else " ".join(fnum(x) for x in c["tr"]))
+        return c
+
+    if kind == "off":
+        c["cmd"] = "merror off"
+        return c
+    if kind in ("one", "one_tr"):
+        c["nf"] = [snf]
+        c["tr"] = [strk] if kind == "one_tr" else None
+        if nfq == 1 and rng.random() < 0.4:
+            c["fv"] = [lo]                      # frequencies == 1 WITH a frequency vector: still element 0
+        return finish()
+    if kind in ("cal", "cal_tr"):
+        c["n"] = nfq
+        c["nf"] = [snf * (1 + 0.5 * i) for i in range(nfq)]
+        c["tr"] = [strk * (1 + 0.25 * i) for i in range(nfq)] if kind == "cal_tr" else None
+        return finish()
+    if kind in ("own", "own_tr"):
+        gf = own_grid()
+        nf_of, tr_of = linear(gf, snf, 0.5), linear(gf, 2.0 * strk, -0.4)
+        c["n"], c["fv"], c["spline"] = len(gf), gf, True
+        c["nf"] = [nf_of(f) for f in gf]
+        c["tab"].append((gf, c["nf"], [nf_of(f) for f in freqs]))
+        if kind == "own_tr":
+            c["tr"] = [tr_of(f) for f in gf]
+            c["tab"].append((gf, c["tr"], [tr_of(f) for f in freqs]))
+        return finish()
+    # ---- calls the function must reject (return -1, nothing stored or changed)
+    if kind == "nonf":
+        c["n"] = rng.choice([1, nfq])
+        c["tr"] = [max(strk, 1e-6)] * c["n"]
+        return finish()
+    if kind in ("nf_nonpos", "tr_neg"):
+        c["n"] = rng.choice([1, nfq])
+        c["nf"] = [snf] * c["n"]
+        c["tr"] = [strk] * c["n"]
+        i = rng.randrange(c["n"])
+        if kind == "nf_nonpos":
+            c["nf"][i] = rng.choice([0.0, -snf])
+            if rng.random() < 0.5:
+                c["tr"] = None
+        else:
+            c["tr"][i] = -max(strk, 1e-6)
+        return finish()
+    gf = own_grid()
+    if kind == "not_ascending":
+        i = rng.randrange(1, len(gf))
+        if rng.random() < 0.5:
+            gf[i] = gf[i - 1]
+        else:
+            gf[i - 1], gf[i] = gf[i], gf[i - 1]
+    elif kind == "out_of_range":
+        if rng.random() < 0.5:
+            gf = [lo * 1.02 + (g - gf[0]) for g in gf]            # starts above (1 + 0.01) fmin
+        else:
+            sh_ = hi * 0.98 - gf[-1]
+            gf = [g + sh_ for g in gf]                            # ends below (1 - 0.01) fmax
+            if gf[0] <= 0:
+                gf = [hi * 0.5 + (hi * 0.48) * i / float(len(gf) - 1) for i in range(len(gf))]
+    if kind == "bad_count":
+        c["n"] = nfq + 1
+        c["nf"] = [snf] * c["n"]
+        c["tr"] = [strk] * c["n"] if rng.random() < 0.5 else None
+        return finish()
+    c["n"], c["fv"] = len(gf), gf
+    c["nf"] = [snf] * len(gf)
+    c["tr"] = [strk] * len(gf) if rng.random() < 0.5 else None
+    # a rejected call never reaches the interpolation, but the model's table must be total
+    c["tab"].append((gf, c["nf"], [snf] * nfq))
+    if c["tr"] is not None:
+        c["tab"].append((gf, c["tr"], [strk] * nfq))
+    return finish()
+
+
+def merror_history_scenario(sid, typ, n, freqs, calls):
+    """calibration without standards; every call followed by a dump of the stored vector"""
+    sc = Scenario(sid, typ, n, freqs)
+    for c in calls:
+        sc.cmd(c["cmd"])
+        sc.cmd("dumpmerror")
+    sc.meta.update({"family": "merror_history", "type": typ, "kinds": [c["kind"] for c in calls],
+                    "calls": [c["cmd"] for c in calls]})
+    return sc
+
+
+def merror_model_query(freqs, calls, fresh_seed=0):
+    """the `merra` line for ocaml/drv_selfcal.ml: environment of the calibration, interpolation table,
+    the calls with their arguments as exact rationals, arbitrary malloc contents"""
+    F = len(freqs)
+    lo = (1.0 + F_EXTRAPOLATION) * freqs[0]
+    hi = (1.0 - F_EXTRAPOLATION) * freqs[-1]
+    tab = [t for c in calls for t in c["tab"]]
+    out = ["merra", str(F)] + [qstr(f) for f in freqs] + ["1", qstr(lo), qstr(hi), "1", str(len(tab))]
+    for fv, ys, vals in tab:
+        out += [str(len(fv))] + [qstr(x) for x in fv] + [qstr(x) for x in ys] + [qstr(x) for x in vals]
+    out.append(str(len(calls)))
+    for k, c in enumerate(calls):
+        out.append(str(c["n"]))
+        for key in ("fv", "nf", "tr"):
+            out += ["-"] if c[key] is None else [qstr(x) for x in c[key]]
+        for i in range(F):
+            out += ["%d/7" % (900 + 10 * k + i + fresh_seed), "%d/3" % (500 + 10 * k + i + fresh_seed)]
+    return " ".join(out)
+
+
+def parse_merra(line):
+    """-> [(returned 0?, None | [(nf, tr) as Fractions])] per call"""
+    out = []
+    p = line.split()
+    assert p[0] == "merra"
+    for i in range(1, len(p), 2):
+        r = p[i].split("=")[1] == "1"
+        s = p[i + 1].split("=", 1)[1]
+        out.append((r, None if s == "none" else [tuple(qparse(x) for x in pr.split(",")) for pr in s.split(";")]))
+    return out
+
+
+# ----------------------------------------------------------------------------- C18: leakage sample patterns
+def build_leak_pattern(rng, sid, typ, n, nfull, pairs=(), nsep=0, nf=1, noise=None):
+    """nfull known standards connecting every pair of ports; for every (a, b) of `pairs` a standard that
+    connects ports a and b only (random full 2-port between them, the other ports terminated, no
+    coupling); nsep multi-reflect standards (no path between any two ports).  The off-diagonal leakage
+    cell (r, c) gets one sample from every standard WITHOUT a path between r and c: nsep + the number of
+    pair standards other than {r, c}'s own -- 0 for some cells, 1 or more for others, depending on the
+    pattern.  The error model has no leakage in cells without a sample (the library cannot estimate it
+    there and assumes none), so that the data are consistent up to the added noise."""
+    freqs = default_freqs(nf)
+    em = ErrorModel(rng, typ, n, nf)
+    counts = {}
+    for r in range(n):
+        for c in range(n):
+            if r != c:
+                counts[(r, c)] = nsep + sum(1 for (a, b) in pairs if {a - 1, b - 1} != {r, c})
+    for f in range(nf):
+        for (el, et, emm, er) in em.cols[f]:
+            for (r, c), k in counts.items():
+                if k == 0:
+                    el[r][c] = 0j
+    sc = Scenario(sid, typ, n, freqs)
+    sc.em = em
+    stds = []
+    for k in range(nfull):
+        sf = rand_full_s(rng, n)
+        nm = [[sc.known([sf[i][j]] * nf) for j in range(n)] for i in range(n)]
+        stds.append((nm, sf))
+    for (a, b) in pairs:
+        two = rand_full_s(rng, 2)
+        s = [[0j] * n for _ in range(n)]
+        for i in range(n):
+            s[i][i] = rand_reflect(rng, i)
+        for i, pi_ in enumerate((a - 1, b - 1)):
+            for j, pj in enumerate((a - 1, b - 1)):
+                s[pi_][pj] = two[i][j]
+        nm = [[sc.known([s[i][j]] * nf) if (i == j or {i, j} == {a - 1, b - 1}) else "zero" for j in range(n)] for i in range(n)]
+        stds.append((nm, s))
+    for k in range(nsep):
+        g = [rand_reflect(rng, k + p) for p in range(n)]
+        nm = [[sc.known([g[i]] * nf) if i == j else "zero" for j in range(n)] for i in range(n)]
+        stds.append((nm, [[g[i] if i == j else 0j for j in range(n)] for i in range(n)]))
+    rng.shuffle(stds)
+    for nm, st in stds:
+        sc.add_mapped(nm, _noisy([em.measure(st, f) for f in range(nf)], noise))
+    sc.nstd = len(stds)
+    sc.meta.update({"family": "leak_pattern", "type": typ, "n": n, "nfull": nfull, "pairs": [list(p) for p in pairs],
+                    "nsep": nsep, "expected_leak_counts": sorted(set(counts.values()))})
+    sc.leak_counts = counts
+    return sc
+
+
+def parse_pvalue_inputs(out):
+    """white-box dump "wb <mode> <trace> 2" -> one dict per call of _vnacal_new_solve_calc_pvalue:
+    parse_pvalue_taps plus {"noise": (nf, tr), "x": [...], "eqs_terms": {sindex: [(own m, [term])]},
+    "leak": [((row, col), count, sum, sumsq, [(given, connected, m)])], "expval": [values of exp()]}"""
+    calls, cur = [], None
+    for line in out.splitlines():
+        if not line.startswith("wb "):
+            continue
+        p = line.split()
+        if p[1] == "pvin":
+            d = dict(x.split("=", 1) for x in p[2:])
+            cur = {"findex": int(d["findex"]), "unknowns": int(d["unknowns"]),
+                   "eqs": [int(x) for x in d["eqs"].split(",") if x], "cells": [], "exp": [], "expval": [], "p": None,
+                   "noise": None, "x": None, "eqs_terms": {}, "leak": []}
+            calls.append(cur)
+        elif cur is None:
+            continue
+        elif p[1] == "leakcell":
+            d = dict(x.split("=", 1) for x in p[4:])
+            std = [(t[0] == "1", t[1] == "1") for t in d["std"].split(",") if t]
+            cur["cells"].append(((int(p[2]), int(p[3])), int(d["count"]), std))
+        elif p[1] == "pvnoise":
+            cur["noise"] = (float(p[2]), float(p[3]))
+        elif p[1] == "pvx":
+            v = [float(x) for x in p[3:]]
+            cur["x"] = [(v[i], v[i + 1]) for i in range(0, len(v), 2)]
+        elif p[1] == "pveq":
+            s = int(p[2])
+            own = (float(p[3]), float(p[4]))
+            terms, i = [], 5
+            while i < len(p):
+                neg = p[i] == "1"
+                i += 1
+                fac = []
+                for _ in range(3):
+                    if p[i] == "-":
+                        fac.append(None)
+                        i += 1
+                    else:
+                        fac.append((float(p[i]), float(p[i + 1])))
+                        i += 2
+                xi = None if p[i] == "-" else int(p[i])
+                i += 1
+                terms.append((neg, fac[0], fac[1], fac[2], xi))
+            cur["eqs_terms"].setdefault(s, []).append((own, terms))
+        elif p[1] == "pvleak":
+            nstd = int(p[8])
+            stds = []
+            for k in range(nstd):
+                t = p[9 + 3 * k]
+                stds.append((t[0] == "1", t[1] == "1", (float(p[10 + 3 * k]), float(p[11 + 3 * k]))))
+            cur["leak"].append(((int(p[2]), int(p[3])), int(p[4]), (float(p[5]), float(p[6])), float(p[7]), stds))
+        elif p[1] == "exp" and cur["p"] is None:
+            cur["exp"].append(float(p[2]))
+            if len(p) > 3:
+                cur["expval"].append(float(p[3]))
+        elif p[1] == "pvout":
+            cur["p"] = float(p[2])
+            cur = None
+    return calls
+
+
+def pvstat_query(call):
+    """the `pvstat` line of ocaml/drv_selfcal.ml from one parsed call (exact values of the doubles)"""
+    def cx(z):
+        return "%s %s" % (qstr(z[0]), qstr(z[1]))
+
+    def ocx(z):
+        return "-" if z is None else cx(z)
+    nfv, trv = call["noise"]
+    out = ["pvstat", str(call["unknowns"]), qstr(nfv), qstr(trv), str(len(call["x"]))] + [cx(z) for z in call["x"]]
+    nsys = len(call["eqs"])
+    out.append(str(nsys))
+    for s in range(nsys):
+        eqs = call["eqs_terms"].get(s, [])
+        out.append(str(len(eqs)))
+        for own, terms in eqs:
+            out += [cx(own), str(len(terms))]
+            for (neg, m, s_, v, xi) in terms:
+                out += ["1" if neg else "0", ocx(m), ocx(s_), ocx(v), "-" if xi is None else str(xi)]
+    if not call["cells"]:
+        out.append("-")
+    else:
+        out.append(str(len(call["leak"])))
+        for (_, _, _, _, stds) in call["leak"]:
+            out.append(str(len(stds)))
+            for (g, c, m) in stds:
+                out += ["%d%d" % (1 if g else 0, 1 if c else 0), cx(m)]
+    return " ".join(out)
